@@ -15,7 +15,7 @@ import (
 func init() {
 	register(&Prop{
 		ID:          "C12",
-		Explanation: "Decides the shape of the refresh protocol (not its schedules): the provider refresh function value is called only in refreshSession, which is called only from refreshSessionIfNeeded; that call site is reached only on paths where ObtainLock returned nil, then SessionStore.Load returned a non-nil session without error, the request's session object was overwritten from it, and a needsRefresh evaluated after the overwrite was true; on every path on which the lock was obtained the deferred function that releases it has been registered, and that function calls ReleaseLock on every path with a non-nil session; once the first needsRefresh is true the function returns nil only because the post-reload needsRefresh was false, or returns validateSession's verdict evaluated after the refresh attempt; validateSession returns nil only if the session is not expired and the provider validator accepted it; getValidatedSession returns a nil session with every error and the loader calls store.Clear for every error other than ErrNoCookie; Manager.Save mints a new ticket only when the request's ticket could not be decoded and otherwise saves under the request's ticket; the redis lock maps redislock's sentinels to the session-lock sentinels the middleware's retry loop tests. Added during the build: Manager.Clear expires the cookie on every path (R8, shared with C11.R2); every provider redeemRefreshToken stores access token, issue time, expiry and — when the response carries one — the refresh token on every success path (R9). Round 3: Age() is Clock.Now() (truncated by at most one second) minus *CreatedAt, unrounded, and needsRefresh is Age() > period (R10); the token-validation helper answers true only for status 200 (R11). Round 4: the cookie store's Save expires every presented session cookie it did not overwrite, so a refreshed session supersedes what the browser holds (R12, shared with C10.R4); every Provider.ValidateSession answers true only as, or after, a true verdict of validateToken or of the ValidateSession it embeds, or after an error-free ID-token verification (R13). needsRefresh may be folded into its caller: the staleness test is then recognised as the comparison Age() > refreshPeriod itself. Round 5: the stored-session loader's refresh and validation callbacks are the provider's own method values and the loader keeps them as given (R14). Round 6: a delegating RefreshSession never answers (false, nil) after its delegate answered true (R15). Round 7: request handling keeps no state of its own between requests — no store, map update, in-place builtin, atomic/sync.Map write or pointer-receiver library call (singleflight, caches) reached from ServeHTTP targets a package-level variable, an object built at start-up, or a constructor variable captured by the handler it returned, declared in the packages implementing this property (RS; a class-wide who-may-write rule with zero instances today: a correct memoisation would be reported until reviewed). Under R9: a refresh that adopts the new ID token adopts its identity claims with it (generic OIDC path). Round 8: a RefreshSession override hands its delegate the caller's own session object, not a scratch copy (R16).",
+		Explanation: "Decides the shape of the refresh protocol (not its schedules): the provider refresh function value is called only in refreshSession, which is called only from refreshSessionIfNeeded; that call site is reached only on paths where ObtainLock returned nil, then SessionStore.Load returned a non-nil session without error, the request's session object was overwritten from it, and a needsRefresh evaluated after the overwrite was true; on every path on which the lock was obtained the deferred function that releases it has been registered, and that function calls ReleaseLock on every path with a non-nil session; once the first needsRefresh is true the function returns nil only because the post-reload needsRefresh was false, or returns validateSession's verdict evaluated after the refresh attempt; validateSession returns nil only if the session is not expired and the provider validator accepted it; getValidatedSession returns a nil session with every error and the loader calls store.Clear for every error other than ErrNoCookie; Manager.Save mints a new ticket only when the request's ticket could not be decoded and otherwise saves under the request's ticket; the redis lock maps redislock's sentinels to the session-lock sentinels the middleware's retry loop tests. Added during the build: Manager.Clear expires the cookie on every path (R8, shared with C11.R2); every provider redeemRefreshToken stores access token, issue time, expiry and — when the response carries one — the refresh token on every success path (R9). Round 3: Age() is Clock.Now() (truncated by at most one second) minus *CreatedAt, unrounded, and needsRefresh is Age() > period (R10); the token-validation helper answers true only for status 200 (R11). Round 4: the cookie store's Save expires every presented session cookie it did not overwrite, so a refreshed session supersedes what the browser holds (R12, shared with C10.R4); every Provider.ValidateSession answers true only as, or after, a true verdict of validateToken or of the ValidateSession it embeds, or after an error-free ID-token verification (R13). needsRefresh may be folded into its caller: the staleness test is then recognised as the comparison Age() > refreshPeriod itself. Round 5: the stored-session loader's refresh and validation callbacks are the provider's own method values and the loader keeps them as given (R14). Round 6: a delegating RefreshSession never answers (false, nil) after its delegate answered true (R15). Round 7: request handling keeps no state of its own between requests — no store, map update, in-place builtin, atomic/sync.Map write or pointer-receiver library call (singleflight, caches) reached from ServeHTTP targets a package-level variable, an object built at start-up, or a constructor variable captured by the handler it returned, declared in the packages implementing this property (RS; a class-wide who-may-write rule with zero instances today: a correct memoisation would be reported until reviewed). Under R9: a refresh that adopts the new ID token adopts its identity claims with it (generic OIDC path). Round 8: a RefreshSession override hands its delegate the caller's own session object, not a scratch copy (R16). Round 8 (class-wide, P12): in the packages implementing this property every named error result that is used at all is examined — compared with nil, returned, stored or handed to a non-formatting function — unless the code validates the value result instead (RE; zero instances today).",
 		NotDecided:  "'exactly one refresh' under interleavings, lock expiry versus identity-provider latency, token rotation at the provider: schedules and histories are not explored.",
 		Run:         runC12,
 	})
@@ -145,6 +145,8 @@ func (a *c12Anchors) needsEvents(p *walk.Path, at int, sess ssa.Value) []needEv 
 }
 
 func runC12(c *Ctx) {
+	c.R.Rule("RE-errors-examined", "in the packages implementing this property every named error result that is used at all is examined, or the value is validated instead (P12, class-wide, round 8)", 1)
+	runErrorsExamined(c, "RE-errors-examined", "pkg/middleware", "pkg/sessions/redis")
 	c.R.Rule("RS-no-request-time-state", "request handling writes no state that outlives the request (package-level variables, objects built at start-up, constructor variables captured by handlers) declared in the packages implementing this property", 1)
 	runStateless(c, "RS-no-request-time-state", "pkg/middleware.storedSessionLoader", "providers", "pkg/sessions")
 	r := c.R
